@@ -101,7 +101,9 @@ def prettify_data(chk, F):
     if len(arrs) != 1:
         raise AnchorLost("prettify: prefix name array not found")
     prefixes = [e["lit"]["v"] for e in arrs[0]["elems"] if e.get("k") == "Lit"]
-    lits = sorted(set(x["lit"]["v"] for hh in hs for x in hir_walk(hh["body"]) if x.get("k") == "Lit" and x["lit"].get("lit") == "str"))
+    lits = sorted(set(x["lit"]["v"] for hh in hs for x in hir_walk(hh["body"]) if x.get("k") == "Lit" and x["lit"].get("lit") == "str") |
+                  # (a special case may be written as a pattern: `match (name, exponent) { ("kg", _) | ("kilogram", _) => .., ("bit", 1) => ..`)
+                  set(x["e"]["v"] for hh in hs for x in hir_walk(hh["body"]) if x.get("pk") == "expr" and isinstance(x.get("e"), dict) and x["e"].get("lit") == "str"))
     f = datafiles.folder()
     defs = datafiles.defs()
     longp = {d["name"]: d for d in defs if d["kind"] == "prefixL"}
@@ -134,7 +136,8 @@ def prettify_data(chk, F):
         chk.decide(ok, "prettify-data", "core/definitions.units", name, "core/definitions.units", "database agrees: " + name, "database disagrees with prettify's special case `%s` %s" % (name, detail))
     need = {"kg", "kilogram", "gram", "bit", "byte", "mega", "tonne"}
     chk.decide(need <= set(lits), "prettify-data", fk, "special-case-names", fn.where(), "special-case names present: %s" % sorted(need), "prettify no longer mentions %s" % sorted(need - set(lits)))
-    ints = sorted(set(x["lit"]["v"] for hh in hs for x in hir_walk(hh["body"]) if x.get("k") == "Lit" and x["lit"].get("lit") == "int"))
+    ints = sorted(set(x["lit"]["v"] for hh in hs for x in hir_walk(hh["body"]) if x.get("k") == "Lit" and x["lit"].get("lit") == "int") |
+                  set(x["e"]["v"] for hh in hs for x in hir_walk(hh["body"]) if x.get("pk") == "expr" and isinstance(x.get("e"), dict) and x["e"].get("lit") == "int"))
     chk.decide(ints == [1, 8, 1000], "prettify-data", fk, "numeric-literals", fn.where(), "numeric literals in prettify are exactly 1, 8, 1000", "numeric literals in prettify are %s (expected 1, 8, 1000)" % ints)
 
 
@@ -174,7 +177,8 @@ def prettify_arith(chk, F):
     div8 = [bb for tr, bb in seen.items() if tr == "div(self.value,8)"]
     if div8:
         gs = [fn.guard_desc(g) for g in fn.guards_of(div8[0])]
-        ok = any(d[0] == "bool" and d[2] is True and d[1][0][0] == "binop" and d[1][0][1] == "Eq" and "as_single" in ap_str(d[1]) and d[1][0][3][0] == ("const", 1) for d in gs)
+        ok = any(d[0] == "bool" and d[2] is True and d[1][0][0] == "binop" and d[1][0][1] == "Eq" and "as_single" in ap_str(d[1]) and d[1][0][3][0] == ("const", 1) for d in gs) or \
+            any(d[0] == "int" and d[2] == 1 and "as_single" in ap_str(d[1]) and str(d[1][1][-1:]) in ("('1',)",) for d in gs)      # the pattern `(_, 1)`
         chk.decide(ok, "prettify-arithmetic", fk, "byte-only-for-exponent-1", fn.where(div8[0]), "value / 8 only behind `exponent == 1`", "the bit -> byte division is not restricted to exponent 1")
     # displayed exponents are the unit's own
     for bb, t in fn.calls():
